@@ -9,7 +9,8 @@ package vauth
 //     fee+COST+1 / rich; top level or nested in 1-3 MsgExec, run by the submitter itself or by a grantee who pays the fee;
 //   * the three vesting-account creation messages for proven / unproven / just-being-proven / existing targets, top level,
 //     beside other messages and nested in MsgExec at depth 1-3;
-//   * now and then an ICA host packet (no ante handler) carrying a vesting-creation message, placed between blocks.
+//   * now and then, in front of a block, an ICA host packet (no ante handler, no transaction) carrying a vesting-creation
+//     message, and one from a second interchain account carrying a proof submission (fee-less route into the message server).
 // Every transaction goes through CheckTx and FinalizeBlock.  Before and after each block the driver reads the vauth store,
 // balances, supply (net of what x/mint minted) and the auth accounts; coq/Corr/CorrVauth.v replays the block on
 // coq/Model/Vauth.v.  The Go oracle below states the property text directly and never looks at the model.
@@ -56,6 +57,8 @@ const (
 	connID     = "connection-0"
 	chanID     = "channel-0"
 	ctrlPort   = "icacontroller-verif-c16"
+	chanIDS    = "channel-1"
+	ctrlPortS  = "icacontroller-verif-c16-submit"
 )
 
 // the fixed fee of the property text, written out (not read from the code)
@@ -87,7 +90,8 @@ type world struct {
 	pool    []*acctInfo // candidate accounts to prove / vesting targets
 	rich    []*itutiltypes.TestAccount
 	sink    *itutiltypes.TestAccount
-	ica     sdk.AccAddress
+	ica     sdk.AccAddress // interchain account sending vesting-creation messages
+	icaS    sdk.AccAddress // a second interchain account (own controller port) submitting proofs
 	icaMod  icahost.IBCModule
 	strIDs  map[string]uint64
 	byteIDs map[string]uint64
@@ -199,6 +203,20 @@ func (w *world) setup() {
 		})
 		c.App.ICAHostKeeper.SetActiveChannelID(ctx, connID, ctrlPort, chanID)
 		c.App.ICAHostKeeper.SetInterchainAccountAddress(ctx, connID, ctrlPort, w.ica.String())
+	}
+	w.icaS = sdk.AccAddress(authtypes.NewModuleAddress("verif-ica-account-" + ctrlPortS))
+	c.Fund(w.icaS, c.Denom(), new(big.Int).Mul(cost, big.NewInt(3)))
+	{
+		ctx := c.Ctx()
+		meta := icatypes.NewMetadata(icatypes.Version, connID, connID, w.icaS.String(), icatypes.EncodingProtobuf, icatypes.TxTypeSDKMultiMsg)
+		ver := string(icatypes.ModuleCdc.MustMarshalJSON(&meta))
+		c.App.IBCKeeper.ChannelKeeper.SetChannel(ctx, icatypes.HostPortID, chanIDS, channeltypes.Channel{
+			State: channeltypes.OPEN, Ordering: channeltypes.ORDERED,
+			Counterparty:   channeltypes.Counterparty{PortId: ctrlPortS, ChannelId: chanIDS},
+			ConnectionHops: []string{connID}, Version: ver,
+		})
+		c.App.ICAHostKeeper.SetActiveChannelID(ctx, connID, ctrlPortS, chanIDS)
+		c.App.ICAHostKeeper.SetInterchainAccountAddress(ctx, connID, ctrlPortS, w.icaS.String())
 	}
 	w.icaMod = icahost.NewIBCModule(c.App.ICAHostKeeper)
 	c.RunBlock(nil)
@@ -317,6 +335,7 @@ const (
 	opSubmit = iota
 	opVesting
 	opIca
+	opIcaSubmit
 )
 
 type vmsg struct {
@@ -700,7 +719,8 @@ func TestDriverVauth(t *testing.T) {
 	side := NewSidecar("vauth", seed,
 		"case = one block of the real chain with 1-4 transactions (proof submissions with 17 classes of signature string, 8 account classes, 13 balance classes, "+
 			"nesting 0-3 in MsgExec with the submitter or a grantee paying the fee; vesting-creation transactions of the three kinds for proven / unproven / "+
-			"in-block-proven / existing targets, top level, beside other messages, nested at depth 1-3) and sometimes an ICA host packet in front of it; every "+
+			"in-block-proven / existing targets, top level, beside other messages, nested at depth 1-3) and sometimes ICA host packets in front of it (one carrying a "+
+			"vesting-creation message, one carrying a proof submission by a second interchain account); every "+
 			"transaction through CheckTx and FinalizeBlock; the chain persists across cases (histories); non-trivial = distinct (operation kinds, signature / account / "+
 			"balance / target classes, result codes); restrictions: one transaction per signer per block, fee price 2 x base fee, ample gas limits, grants exist for "+
 			"grantee-paid submissions; IBC packet proof verification in front of the ICA host is not exercised")
@@ -729,6 +749,20 @@ func TestDriverVauth(t *testing.T) {
 		if r.Chance(6) {
 			icaOp = &op{Kind: opIca, Msgs: []*vmsg{{Kind: 0, VK: r.Intn(3), Target: w.pickAcc(r, nil, 70)}}}
 			inBlock = append(inBlock, icaOp.Msgs[0].Target)
+		}
+		var icaSub *op
+		if r.Chance(9) {
+			// a proof submission carried by an ICA host packet: submitter = the interchain account, no transaction, no fee
+			acc := w.pickAcc(r, inBlock, 55)
+			icaSub = &op{Kind: opIcaSubmit, Acc: acc, AccStr: acc.addr.String(), AccOK: len(acc.addr) == 20, AccID: acc.id, AccClass: "bech32", Fee: big.NewInt(0), BalClass: "ica"}
+			if len(acc.addr) != 20 {
+				icaSub.AccClass = "long32"
+			}
+			icaSub.Sig = w.genSig(r, acc, w.sink)
+			inBlock = append(inBlock, acc)
+			if b := c.Bal(c.QueryCtx(), w.icaS, c.Denom()); b.Cmp(cost) < 0 && r.Chance(60) {
+				c.Fund(w.icaS, c.Denom(), new(big.Int).Sub(cost, b)) // exactly the fixed cost
+			}
 		}
 		for j := 0; j < nOps; j++ {
 			var o *op
@@ -766,6 +800,11 @@ func TestDriverVauth(t *testing.T) {
 					univ[hex.EncodeToString(a.addr)] = a
 				}
 			}
+		}
+		if icaSub != nil {
+			a := w.register(w.icaS, nil, "ica")
+			tracked[hex.EncodeToString(a.addr)] = a
+			univ[hex.EncodeToString(a.addr)] = a
 		}
 		sorted := func(m map[string]*acctInfo) []*acctInfo {
 			l := make([]*acctInfo, 0, len(m))
@@ -821,6 +860,33 @@ func TestDriverVauth(t *testing.T) {
 			p := CatchPanic(func() { icaOp.icaAck = w.icaMod.OnRecvPacket(ctx, pkt, w.sink.GetCosmosAddress()).Success() })
 			require.Nil(t, p, "OnRecvPacket panicked: %v", p)
 		}
+		if icaSub != nil {
+			ctx := c.Ctx().WithEventManager(sdk.NewEventManager())
+			msg := &vauthtypes.MsgSubmitProofExternalOwnedAccount{Submitter: w.icaS.String(), Account: icaSub.AccStr, Signature: icaSub.Sig.Str}
+			data, err := icatypes.SerializeCosmosTx(c.S.EncodingConfig.Codec, []proto.Message{msg}, icatypes.EncodingProtobuf)
+			require.NoError(t, err)
+			pd := icatypes.InterchainAccountPacketData{Type: icatypes.EXECUTE_TX, Data: data}
+			pkt := channeltypes.NewPacket(pd.GetBytes(), uint64(idx+1), ctrlPortS, chanIDS, icatypes.HostPortID, chanIDS, clienttypes.NewHeight(1, 1<<40), 0)
+			var ackBz []byte
+			p := CatchPanic(func() {
+				ack := w.icaMod.OnRecvPacket(ctx, pkt, w.sink.GetCosmosAddress())
+				icaSub.icaAck, ackBz = ack.Success(), ack.Acknowledgement()
+			})
+			switch {
+			case p != nil:
+				icaSub.code, icaSub.codespace = 111222, "undefined" // what baseapp makes of a panic in a MsgRecvPacket
+			case icaSub.icaAck:
+				icaSub.code = 0
+			default:
+				// ibc-go error acknowledgement: "ABCI code: <n>: error handling packet: see events for details"
+				var n uint32
+				if i := strings.Index(string(ackBz), "ABCI code: "); i >= 0 {
+					fmt.Sscanf(string(ackBz)[i+len("ABCI code: "):], "%d", &n)
+				}
+				require.NotZero(t, n, "cannot read the ABCI code of the error acknowledgement %s", string(ackBz))
+				icaSub.code, icaSub.codespace = n, "sdk"
+			}
+		}
 		var txs [][]byte
 		for _, o := range ops {
 			chk, err := c.CheckTx(o.bz, false)
@@ -857,37 +923,48 @@ func TestDriverVauth(t *testing.T) {
 		cqCheck = append(cqCheck, "true")
 		cqObs = append(cqObs, "XNone")
 		verSeen := map[string]bool{}
+		sigCoq := func(o *op) string {
+			prefix := strings.HasPrefix(o.Sig.Str, "0x")
+			var raw []byte
+			hexOK := false
+			if len(o.Sig.Str) >= 2 {
+				b, err := hex.DecodeString(o.Sig.Str[2:])
+				if err == nil && len(b) >= 1 {
+					hexOK, raw = true, b
+				}
+			}
+			bid := uint64(0)
+			if hexOK {
+				bid = w.bytesID(raw)
+				if o.Acc != nil {
+					// the external function, called as the message's ValidateBasic calls it
+					k := fmt.Sprintf("%d/%d", o.AccID, bid)
+					if !verSeen[k] {
+						verSeen[k] = true
+						ok := false
+						CatchPanic(func() {
+							v, err := vauthutils.VerifySignature(common.BytesToAddress(o.Acc.addr), raw, vauthtypes.MessageToSign)
+							ok = v && err == nil
+						})
+						cqVer = append(cqVer, fmt.Sprintf("(%s, %s, %s)", CqN(o.AccID), CqN(bid), CqBool(ok)))
+					}
+				}
+			}
+			return fmt.Sprintf("(Build_sigstr %s %s %s %s %s)", CqN(w.strID(o.Sig.Str)), CqN(bid), CqBool(prefix), CqBool(hexOK), CqBool(strings.ToLower(o.Sig.Str) == o.Sig.Str))
+		}
+		if icaSub != nil {
+			// executed before BeginBlock of this block: in front of the mint operation
+			pos := len(cqOps) - 1
+			opS := fmt.Sprintf("(OIcaSubmit %s %s %s %s)", CqN(w.register(w.icaS, nil, "ica").id), CqN(icaSub.AccID), CqBool(icaSub.AccOK), sigCoq(icaSub))
+			cqOps = append(cqOps[:pos], append([]string{opS}, cqOps[pos:]...)...)
+			cqCheck = append(cqCheck, "true")
+			cqObs = append(cqObs[:pos], append([]string{fmt.Sprintf("(XIca %s)", CqZi(int64(icaSub.code)))}, cqObs[pos:]...)...)
+		}
 		for _, o := range ops {
 			cqCheck = append(cqCheck, CqBool(o.checkOK))
 			switch o.Kind {
 			case opSubmit:
-				prefix := strings.HasPrefix(o.Sig.Str, "0x")
-				var raw []byte
-				hexOK := false
-				if len(o.Sig.Str) >= 2 {
-					b, err := hex.DecodeString(o.Sig.Str[2:])
-					if err == nil && len(b) >= 1 {
-						hexOK, raw = true, b
-					}
-				}
-				bid := uint64(0)
-				if hexOK {
-					bid = w.bytesID(raw)
-					if o.Acc != nil {
-						// the external function, called as the message's ValidateBasic calls it
-						k := fmt.Sprintf("%d/%d", o.AccID, bid)
-						if !verSeen[k] {
-							verSeen[k] = true
-							ok := false
-							CatchPanic(func() {
-								v, err := vauthutils.VerifySignature(common.BytesToAddress(o.Acc.addr), raw, vauthtypes.MessageToSign)
-								ok = v && err == nil
-							})
-							cqVer = append(cqVer, fmt.Sprintf("(%s, %s, %s)", CqN(o.AccID), CqN(bid), CqBool(ok)))
-						}
-					}
-				}
-				g := fmt.Sprintf("(Build_sigstr %s %s %s %s %s)", CqN(w.strID(o.Sig.Str)), CqN(bid), CqBool(prefix), CqBool(hexOK), CqBool(strings.ToLower(o.Sig.Str) == o.Sig.Str))
+				g := sigCoq(o)
 				cqOps = append(cqOps, fmt.Sprintf("(OSubmit %s %s %s %s %s %s %s)", CqNat(o.Nest), CqN(w.regKey(o.Payer, "signer").id), CqN(w.regKey(o.Sub, "signer").id),
 					CqN(o.AccID), CqBool(o.AccOK), g, CqZ(o.Fee)))
 				code := int64(o.code)
@@ -939,6 +1016,18 @@ func TestDriverVauth(t *testing.T) {
 			canon = append(canon, "ica:"+icaOp.Msgs[0].canon())
 			side.Count("op:ica-host-packet")
 			side.Count(fmt.Sprintf("ica:ack_success=%v", icaOp.icaAck))
+		}
+		if icaSub != nil {
+			tag := icaSub.Acc.tag
+			if _, p := storeBefore[hex.EncodeToString(icaSub.Acc.addr)]; p {
+				tag += "+proven"
+			}
+			descOps = append(descOps, map[string]interface{}{"op": "ica-host-packet-submit-proof", "submitter": w.icaS.String(), "account": icaSub.AccStr, "account_kind": tag,
+				"signature": icaSub.Sig.Str, "signature_class": icaSub.Sig.Class, "ack_success": icaSub.icaAck, "code": icaSub.code})
+			canon = append(canon, fmt.Sprintf("icaS|%s|%s|%d", icaSub.Sig.Class, tag, icaSub.code))
+			side.Count("op:ica-host-packet-submit-proof")
+			side.Count(fmt.Sprintf("ica-submit:code=%d", icaSub.code))
+			side.Count("ica-submit:sig:" + icaSub.Sig.Class)
 		}
 		for i, o := range ops {
 			d := map[string]interface{}{"tx_index": i, "check_code": o.checkCode, "deliver_code": fmt.Sprintf("%s/%d", o.codespace, o.code), "ante_passed": o.antePassed}
@@ -997,7 +1086,12 @@ func TestDriverVauth(t *testing.T) {
 
 		// =================================================================== oracle: the property text
 		hit := func(sig, msg string) { side.Hit("C16/vauth/"+sig, msg, desc) }
-		okSubmit := func(o *op) bool { return o.Kind == opSubmit && o.code == 0 }
+		okSubmit := func(o *op) bool { return (o.Kind == opSubmit || o.Kind == opIcaSubmit) && o.code == 0 }
+		// submissions in the order they ran: the one carried by an ICA packet (if any) ran before the block
+		seq := ops
+		if icaSub != nil {
+			seq = append([]*op{icaSub}, ops...)
+		}
 
 		// (1) unforgeable: a proof appears only together with a signature by the key controlling that address over the fixed message
 		for h, p := range storeAfter {
@@ -1014,7 +1108,7 @@ func TestDriverVauth(t *testing.T) {
 				continue
 			}
 			by := false
-			for _, o := range ops {
+			for _, o := range seq {
 				if okSubmit(o) && o.Acc == a && o.Sig.Str == p.Signature {
 					by = true
 				}
@@ -1038,15 +1132,15 @@ func TestDriverVauth(t *testing.T) {
 				hit("proof/overwritten-or-removed", "a stored proof changed or disappeared: "+h)
 			}
 		}
-		for _, o := range ops {
+		for _, o := range seq {
 			if okSubmit(o) && o.Acc != nil {
 				if _, was := storeBefore[hex.EncodeToString(o.Acc.addr)]; was {
 					hit("proof/proven-address-proved-again", "a submission for an already proven address succeeded")
 				}
 			}
 		}
-		for i, o := range ops {
-			for _, o2 := range ops[:i] {
+		for i, o := range seq {
+			for _, o2 := range seq[:i] {
 				if okSubmit(o) && okSubmit(o2) && o.Acc != nil && o.Acc == o2.Acc {
 					hit("proof/proven-address-proved-again", "two submissions of one block for the same address both succeeded")
 				}
@@ -1055,7 +1149,7 @@ func TestDriverVauth(t *testing.T) {
 		// (3) cost: exactly the fixed fee from the submitter, burnt; a rejected submission burns nothing.
 		// Per tracked account: -(transaction fees of the transactions it signed whose ante handler passed) - COST per successful submission it made.
 		nOK := int64(0)
-		for _, o := range ops {
+		for _, o := range seq {
 			if okSubmit(o) {
 				nOK++
 			}
@@ -1063,6 +1157,9 @@ func TestDriverVauth(t *testing.T) {
 		for _, a := range T {
 			h := hex.EncodeToString(a.addr)
 			want := new(big.Int).Set(balBefore[h])
+			if icaSub != nil && icaSub.code == 0 && hex.EncodeToString(w.icaS) == h {
+				want.Sub(want, cost) // no transaction, no transaction fee: the interchain account owes the fixed cost only
+			}
 			for _, o := range ops {
 				if o.Kind != opSubmit {
 					continue
@@ -1098,7 +1195,8 @@ func TestDriverVauth(t *testing.T) {
 				}
 				if d > 0 {
 					nested = true
-				} else if _, p := storeBefore[hex.EncodeToString(m.Target.addr)]; !p {
+				} else if _, p := storeBefore[hex.EncodeToString(m.Target.addr)]; !p && !(icaSub != nil && icaSub.code == 0 && icaSub.Acc == m.Target) {
+					// (a proof stored by the ICA packet delivered in front of this block is already there when CheckTx runs)
 					unprovenTop = true
 				}
 			})
@@ -1133,6 +1231,9 @@ func TestDriverVauth(t *testing.T) {
 			}
 			byIca := icaOp != nil && icaOp.Msgs[0].Target == a && icaOp.icaAck
 			_, proven := storeBefore[h]
+			if icaSub != nil && icaSub.code == 0 && icaSub.Acc == a {
+				proven = true
+			}
 			if first >= 0 {
 				for _, o := range ops[:first] {
 					if okSubmit(o) && o.Acc == a {
